@@ -47,6 +47,9 @@ class Check(PropertyCheck):
             if _i % 15 == 3:
                 yield Scenario(["new", f"mark customfilter {rng.randint(0, 10**6)}"], {"family": "custom_filter", "accepted": 3, "style": "custom_filter"})
                 continue
+            if _i % 15 == 11:
+                yield Scenario(["new", f"mark selfunsub {rng.randint(0, 10**6)}"], {"family": "selfunsub", "accepted": 3, "style": "selfunsub"})
+                continue
             if _i % 15 == 10:
                 yield Scenario(["new", f"mark raiser {rng.randint(0, 10**6)}"], {"family": "raiser", "accepted": 3, "style": "raiser"})
                 continue
@@ -56,6 +59,9 @@ class Check(PropertyCheck):
 
     def oracle(self, impl, scenario, index, line, out, ctx):
         res = []
+        if line.startswith("mark selfunsub"):
+            import oracles as _o
+            return _o.self_unsub_episode(int(line.split()[2]))["C02"]
         if line.startswith("mark raiser"):
             return oracles.raiser_episode(int(line.split()[2]))["C02"]
         if line.startswith("mark customfilter"):
